@@ -2,6 +2,7 @@
 from __future__ import annotations
 
 import ast
+import re
 
 from ..cfg import handler_names
 from ..core import AnalysisError, calls_in, call_name, dotted, unparse, walk_no_nested
@@ -210,6 +211,50 @@ def r6_enclosing_scopes_stay_reachable(ctx: Ctx) -> None:
     scope_truthiness(ctx)
 
 
+def scope_log_is_not_a_depth(ctx: Ctx, props_owned: bool = True) -> None:
+    """Resolver.scopes is the append-only log of every scope the program ever opened (one per block, application, iteration), not
+    the nesting stack.  A rejection guarded by `len(<resolver>.scopes) > K` therefore refuses every program that opens more than K
+    scopes, however shallow: the (K+1)-th macro application, or any application after a loop of K iterations, fails although
+    applications are independent of each other."""
+    from ..ownership import owned
+
+    # (1) the log only grows
+    shrink = []
+    for fn in ctx.repo.all_functions():
+        for n in walk_no_nested(fn.node):
+            if isinstance(n, ast.Call) and isinstance(n.func, ast.Attribute) and n.func.attr in ("pop", "remove", "clear") and unparse(n.func.value).endswith(".scopes"):
+                shrink.append(f"{fn.where}:{unparse(n)[:40]}")
+            if isinstance(n, ast.Delete) and any(".scopes" in unparse(t) for t in n.targets):
+                shrink.append(f"{fn.where}:{unparse(n)[:40]}")
+            if isinstance(n, ast.Assign) and any(unparse(t).endswith(".scopes") for t in n.targets) and fn.name != "__init__":
+                shrink.append(f"{fn.where}:{unparse(n)[:40]}")
+    n_guards = 0
+    for fn in ctx.repo.all_functions():
+        if not fn.module.name.startswith("a816.parse.codegen"):
+            continue
+        raises = [r for r in walk_no_nested(fn.node) if isinstance(r, ast.Raise)]
+        if not raises:
+            continue
+        g = CFG(fn.node)
+        for r in raises:
+            for t, pol in g.path_conditions(g.node_of(r), fn.node):
+                m = re.match(r"^len\((\w+(?:\.\w+)*)\.scopes\) (>|>=|<|<=) (\w+)$", t)
+                if not m:
+                    continue
+                n_guards += 1
+                if shrink:
+                    raise AnalysisError(f"{fn.where}: limit on len(scopes) while the log can shrink ({shrink[0]}); not modelled")
+                if props_owned and not owned(ctx.prop, fn.fq):
+                    continue
+                ctx.fail(f"{fn.where}:raise under `{t}`", "Resolver.scopes only ever grows (one entry per scope opened anywhere in the program): this limit rejects every "
+                         "program with that many scopes, not deep nesting; a valid application placed after enough blocks, loop iterations or other applications fails")
+    ctx.ok("a816.parse.codegen:no-limit-on-scope-log", f"{n_guards} rejection(s) keyed on the size of Resolver.scopes") if n_guards == 0 else None
+
+
+def r7_no_capacity_limit_on_scope_log(ctx: Ctx) -> None:
+    scope_log_is_not_a_depth(ctx)
+
+
 def rb_binding_agreement(ctx: Ctx) -> None:
     from ..ownership import binding_agreement
 
@@ -223,4 +268,4 @@ def rm_no_process_lifetime_results(ctx: Ctx) -> None:
     state_rule(ctx)
 
 
-RULES = [r1_arguments_in_caller_scope, r2_positional_binding, r3_per_application_scope, r4_only_symbol_not_defined_defers, r5_failures_inside_expansions_surface, r6_enclosing_scopes_stay_reachable, rb_binding_agreement, rm_no_process_lifetime_results]
+RULES = [r1_arguments_in_caller_scope, r2_positional_binding, r3_per_application_scope, r4_only_symbol_not_defined_defers, r5_failures_inside_expansions_surface, r6_enclosing_scopes_stay_reachable, r7_no_capacity_limit_on_scope_log, rb_binding_agreement, rm_no_process_lifetime_results]
